@@ -36,13 +36,48 @@ def trigger(fid):
     return deco
 
 
+GENERIC = ('F-02a', 'F-02b', 'F-02c')      # triggers written against FRAME indices
+
+
+def frame_verdict(pid, tr, verdict):
+    """acceptors over event lists report an event index; the generic triggers want the index of the frame it lies in"""
+    if not verdict or verdict[0] != 'R':
+        return verdict
+    try:
+        mod = __import__('props.%s' % pid.lower(), fromlist=['PROP'])
+        P = mod.PROP
+        if hasattr(P, 'frame_index'):
+            return ('R', P.frame_index(tr, verdict[1])) + tuple(verdict[2:])
+    except Exception:
+        pass
+    return verdict
+
+
+# a finding explains only the failure patterns it is known to cause: where a (finding, property) pair is listed here the
+# failing clause must be one of the listed ones, so that a different violation in the same run is still reported
+CLAUSES = {
+    ('F-02b', 'C03'): {37},          # the clock went back: a record whose exit lies before its arrival
+    ('F-02a', 'C03'): {37},
+}
+
+
 def match(pid, cfg, tr, verdict):
+    vf = None
     for fid in open_ids(pid):
         fn = TRIGGERS.get(fid)
         if fn is None:
             continue
+        allowed = CLAUSES.get((fid, pid))
+        if allowed is not None and verdict and verdict[0] == 'R' and verdict[2] not in allowed:
+            continue
         try:
-            if fn(pid, cfg, tr, verdict):
+            if fid in GENERIC:
+                if vf is None:
+                    vf = frame_verdict(pid, tr, verdict)
+                hit = fn(pid, cfg, tr, vf)
+            else:
+                hit = fn(pid, cfg, tr, verdict)
+            if hit:
                 return fid
         except Exception:
             pass
@@ -91,10 +126,6 @@ def _f02c(pid, cfg, tr, v):
     if v[0] != 'R':
         return False
     k = v[1]
-    if pid == 'C13':
-        from props.c13 import PROP as _P13
-        k = _P13.frame_index(tr, k)
-        v = ('R', k) + tuple(v[2:])
     if k < 1 or k > len(tr.frames):
         return False
     victims = set(e[2] for e in _events(tr, v, ('Preempt',))) | set(e[2] for e in _events(tr, v, ('Interrupt',)))
